@@ -32,7 +32,7 @@ ASSUMPTIONS = [
     "float agreement is judged to 1e-9 relative + 1e-12 absolute; counts are exact",
 ]
 REQUIRED = {"all": ["single_residues", "residue_pairs", "random_sequences", "whitespace_presentations",
-                    "ppii_scale_switches", "longer_than_1000", "salted_objects", "sweep_sequences"]}
+                    "ppii_scale_switches", "longer_than_1000", "salted_objects", "sweep_sequences", "thread_rounds"]}
 NRANDOM = {"quick": 4000, "thorough": 30000}
 
 
@@ -43,6 +43,8 @@ def cases(tier, seed):
         for b in M.AA:
             yield {"s": a + b, "kind": "pair"}
     yield {"s": "", "kind": "sweep", "count": 700 if tier == "quick" else 2500}
+    for j in range(2 if tier == "quick" else 8):
+        yield {"s": "", "kind": "threads", "o": j}
     for w in gen.CODE_WORDS + ["K" * 301 + "E" * 300 + "G" * 900, "Q" * 1500 + "K", "GS" * 600 + "D", "E" * 500 + "K" * 501 + "S" * 1200]:
         yield {"s": w, "kind": "random", "o": 13}
     for w in ["ALA", "MET", "GLYGLY", "METSERLYS", "HISTHRVALALA", "TYRILEPHEASN", "SERMETLYS", "LAA", "README", "ASP", "LYSARG"]:
@@ -151,9 +153,31 @@ def judge_sweep(case, rep, S):
             return
 
 
+def judge_threads(case, rep, S):
+    """Several threads, each asking the composition getters of objects of its own."""
+    from .. import threads as T
+    rng = gen.sub_rng(case["o"], ID, "threads")
+    seqs = [gen.rand_seq(rng, hi=80) for _ in range(8)] + ["IIIIIIIIII", "KRDE" * 5, "W"]
+    table = {}
+    for nm in calls(S["SP"]("ACDEFGHIKLMNPQRSTVWY")):
+        table[nm] = (lambda o, nm=nm: calls(o)[nm]())
+    if T.own_object_agreement(S["SP"], seqs, table, rep, "value:concurrent_callers", seed=case["o"], counter="thread_rounds"):
+        # and the single-threaded answers themselves are the definitions
+        for s in seqs:
+            ref = reference(s)
+            o = S["SP"](s)
+            for nm in ("mean_hydropathy", "uversky_hydropathy", "WW_hydropathy", "FCR"):
+                got = calls(o)[nm]()
+                if not M.close(got, ref[nm]):
+                    rep.viol("value:" + nm, "after the threaded round %s(%s)=%r, definition %r" % (nm, s, got, ref[nm]), sig={"after_threads": True})
+                    return
+
+
 def judge(case, rep, S):
     if case["kind"] == "sweep":
         return judge_sweep(case, rep, S)
+    if case["kind"] == "threads":
+        return judge_threads(case, rep, S)
     pres = case["s"]
     word = "".join(ch for ch in pres.upper() if not ch.isspace())
     rep.cnt({"single": "single_residues", "pair": "residue_pairs", "random": "random_sequences"}[case["kind"]])
